@@ -8,7 +8,7 @@ import gen as G
 import verde as vd
 
 ID = "C08"
-TRANSLATED = "coords"      # Gen/Coords.lean is regenerated from /repo by py2lean.py and bridged to the model in Props/C08.lean
+TRANSLATED = "blocksplit"  # Gen/Coords.lean (prelude) and Gen/BlockSplit.lean (the nearest-centre query, the return order) are regenerated from /repo and bridged in Props/C08.lean
 FILES = ["verde/coordinates.py", "verde/utils.py"]
 RULE = ("corpus (edge/corner/outside points, single row/column layouts, degenerate extent) + seeded clouds (clustered, lattice points on block "
         "edges, points outside the region) over regions given or inferred, scalar/pair spacings, both adjust modes and shapes, 1-D/2-D arrays; "
